@@ -156,7 +156,7 @@ func (c *RefColl) del(key []byte) bool {
 func (c *RefColl) totals() (uint64, uint64) {
 	var b uint64
 	for _, it := range c.Items {
-		b += uint64(len(it.Key) + len(it.Val))
+		b += uint64(len(it.Key) + len(it.Val) + valOverhead)
 	}
 	return uint64(len(c.Items)), b
 }
